@@ -133,6 +133,19 @@ pub struct PartResult {
 }
 
 pub static PROGRESS: AtomicU64 = AtomicU64::new(0);
+/// the first violation a worker observed, written out at once (unshrunk): if other workers then hang inside the library (e.g. a blocking
+/// wait the harness cannot interrupt), the watchdog reports this one instead of turning the run into 'inconclusive'
+pub static PENDING_VIOLATION: Mutex<Option<(String, std::path::PathBuf, String, String)>> = Mutex::new(None);
+
+fn note_first_violation<C: Serialize>(cfg: &Cfg, part: &str, case: &C, signature: &str, detail: &str) {
+    let mut g = PENDING_VIOLATION.lock().unwrap();
+    if g.is_some() { return; }
+    let path = cfg.replays_out.join(format!("{}-{}-violation.json", cfg.property, part));
+    let file = ReplayFile { property: cfg.property.clone(), part: part.to_string(), signature: signature.to_string(), detail: detail.to_string(), expect: None, case: serde_json::to_value(case).unwrap_or(Value::Null) };
+    let _ = std::fs::create_dir_all(&cfg.replays_out);
+    let _ = std::fs::write(&path, serde_json::to_string_pretty(&file).unwrap_or_default());
+    *g = Some((cfg.property.clone(), path, signature.to_string(), detail.to_string()));
+}
 
 /// Before a case is executed it is written to `inflight-<property>-<part>-w<k>.json`: if the case crashes the whole process
 /// (memory corruption inside the library), the supervising parent process finds the culprit among these files.
@@ -213,6 +226,7 @@ pub fn run_part<P: Property>(prop: &P, cfg: &Cfg) -> PartResult {
                             if is_known(signature) {
                                 *shared.res.lock().unwrap().known_hits.entry(signature.clone()).or_insert(0) += 1;
                             } else {
+                                if !survey { note_first_violation(cfg, prop.part(), &case, signature, detail); }
                                 shared.stop.store(true, Ordering::Relaxed);
                                 let mut f = failure.lock().unwrap();
                                 if f.is_none() { *f = Some(case); }
@@ -269,6 +283,7 @@ pub fn run_part<P: Property>(prop: &P, cfg: &Cfg) -> PartResult {
                                     }
                                     Ok(())
                                 } else {
+                                    if !failed_here.get() { note_first_violation(cfg, prop.part(), &case, signature, detail); }
                                     failed_here.set(true);
                                     shared.stop.store(true, Ordering::Relaxed);
                                     Err(TestCaseError::fail(signature.clone()))
